@@ -18,7 +18,7 @@ cargo build --offline --bins > /dev/null 2>&1
 echo "tests with patch: $T1"
 ( eval "$DEMO" ) > $OUT/demo_with.log 2>&1; D1=$?
 # without patch: demo passes
-git -C $WT stash -q -- src 2>/dev/null || git -C $WT checkout -- src
+git -C $WT checkout -- src
 cargo build --offline --bins > /dev/null 2>&1
 ( eval "$DEMO" ) > $OUT/demo_without.log 2>&1; D0=$?
 echo "demo rc with patch=$D1 without=$D0"
